@@ -11,7 +11,8 @@ From DC Require Import StoreRef.
 
 Section proofs.
 Context {B : Type}.
-Implicit Types (s : store B) (m : kmap B) (c : call B) (o : op B) (ws : list (atom B)).
+Implicit Types (s : store B) (m : kmap B) (c : call B) (o : op B) (ws : list (atom B))
+  (cs : list (call B)).
 
 (** ** One keyspace at a time *)
 
@@ -85,9 +86,18 @@ Proof.
   - by constructor.
 Qed.
 
+Lemma sublist_NoDup_inv {A} (l k : list A) : sublist l k -> NoDup k -> NoDup l.
+Proof.
+  induction 1 as [|x l k Hs IH|x l k Hs IH]; intros Hk.
+  - constructor.
+  - apply NoDup_cons in Hk as [Hx Hk]. apply NoDup_cons. split; [|by apply IH].
+    intros Hin. apply Hx. eapply elem_of_submseteq; [exact Hin|by apply sublist_submseteq].
+  - apply NoDup_cons in Hk as [_ Hk]. by apply IH.
+Qed.
+
 Lemma NoDup_ks_list s : NoDup (ks_list s).
 Proof.
-  eapply sublist_NoDup; [|apply (NoDup_fst_map_to_list s)].
+  eapply sublist_NoDup_inv; [|apply (NoDup_fst_map_to_list s)].
   apply omap_fst_sublist. intros [k m] y. cbn.
   destruct (map_to_list m); [done|]. by intros [= <-].
 Qed.
@@ -186,7 +196,7 @@ Lemma view_run s cs ks id :
   view (run s cs) ks id = last_write (writes cs ks) id (view s ks id).
 Proof. unfold view. by rewrite ksmap_run_writes, fold_atoms_lookup. Qed.
 
-Lemma last_write_app ws1 ws2 id acc :
+Lemma last_write_app (ws1 ws2 : list (atom B)) id acc :
   last_write (ws1 ++ ws2) id acc = last_write ws2 id (last_write ws1 id acc).
 Proof. revert acc. induction ws1 as [|a r IH]; intros acc; [done|]. cbn. by rewrite IH. Qed.
 
@@ -197,7 +207,7 @@ Proof.
   cbn. rewrite IH. by destruct (N.eqb_spec a.1 id).
 Qed.
 
-Lemma last_write_last pre post id w acc :
+Lemma last_write_last (pre post : list (atom B)) id w acc :
   Forall (fun a => a.1 <> id) post ->
   last_write (pre ++ (id, w) :: post) id acc = w.
 Proof.
@@ -205,7 +215,7 @@ Proof.
   rewrite N.eqb_refl. by apply last_write_untouched.
 Qed.
 
-Lemma last_write_wins cs ks id pre post w :
+Lemma last_write_wins cs ks id (pre post : list (atom B)) w :
   writes cs ks = pre ++ (id, w) :: post ->
   Forall (fun a => a.1 <> id) post ->
   view (run empty_store cs) ks id = w.
